@@ -67,14 +67,14 @@ def handle (args : List String) (_impl : String) : String × String :=
     -- `oshl` / `oshr`: the methods GENERATED from the source (`Props/C05.gen_overflowing_shl_eq`, `…_shr_eq`)
     | "oshl" => (outF (Ruint.Gen.uint_overflowing_shl (nlimbs bits + 1) bits (nlimbs bits) a s), toHex (sShl bits x s) ++ " " ++ boolStr (sShlF bits x s))
     | "oshr" => (outF (Ruint.Gen.uint_overflowing_shr (nlimbs bits + 1) bits (nlimbs bits) a s), toHex (sShr bits x s) ++ " " ++ boolStr (sShrF bits x s))
-    | "cshl" => (outO (checkedShl bits a s), sOpt (!sShlF bits x s) (sShl bits x s))
-    | "cshr" => (outO (checkedShr bits a s), sOpt (!sShrF bits x s) (sShr bits x s))
-    | "sshl" => (out (saturatingShl bits a s), toHex (if sShlF bits x s then 2 ^ bits - 1 else sShl bits x s))
-    | "wshl" => (out (wrappingShl bits a s), toHex (sShl bits x s))
-    | "wshr" => (out (wrappingShr bits a s), toHex (sShr bits x s))
-    | "ashr" => (out (arithmeticShr bits a s), toHex (sAshr bits x s))
-    | "rotl" => (out (rotateLeft bits a s), toHex (sRotl bits x s))
-    | "rotr" => (out (rotateRight bits a s), toHex (sRotr bits x s))
+    | "cshl" => (outO (Ruint.Gen.uint_checked_shl (nlimbs bits + 1) bits (nlimbs bits) a s), sOpt (!sShlF bits x s) (sShl bits x s))
+    | "cshr" => (outO (Ruint.Gen.uint_checked_shr (nlimbs bits + 1) bits (nlimbs bits) a s), sOpt (!sShrF bits x s) (sShr bits x s))
+    | "sshl" => (out (Ruint.Gen.uint_saturating_shl (nlimbs bits + 1) bits (nlimbs bits) a s), toHex (if sShlF bits x s then 2 ^ bits - 1 else sShl bits x s))
+    | "wshl" => (out (Ruint.Gen.uint_wrapping_shl (nlimbs bits + 1) bits (nlimbs bits) a s), toHex (sShl bits x s))
+    | "wshr" => (out (Ruint.Gen.uint_wrapping_shr (nlimbs bits + 1) bits (nlimbs bits) a s), toHex (sShr bits x s))
+    | "ashr" => (out (Ruint.Gen.uint_arithmetic_shr (nlimbs bits + 1) bits (nlimbs bits) a s), toHex (sAshr bits x s))
+    | "rotl" => (out (Ruint.Gen.uint_rotate_left (nlimbs bits + 1) bits (nlimbs bits) a s), toHex (sRotl bits x s))
+    | "rotr" => (out (Ruint.Gen.uint_rotate_right (nlimbs bits + 1) bits (nlimbs bits) a s), toHex (sRotr bits x s))
     | _ => ("bad-op", "bad-op")
   | _ => ("bad-op", "bad-op")
 
